@@ -57,7 +57,7 @@ func rawCursorStrings(r *hx.Rand) []string {
 		emitAny(map[string]any{"K": uint64(1) << 63}), emitAny(map[string]any{"K": -7, "P": "p", "Z": []int{1}}), emitAny(25), emitAny("25"))
 	// corruptions of real cursors
 	for _, c := range []int{10, 20, 300, -7, 70000} {
-		s := emit(c)
+		s := emitFor("", c)
 		out = append(out, s[:len(s)-1], s+"A", s+"=", strings.ToUpper(s), s+s)
 		b := []byte(s)
 		b[r.Intn(len(b))] = "ABCDwxyz0189-_"[r.Intn(14)]
@@ -98,7 +98,7 @@ func main() {
 		h.model = m
 		defer m.Close()
 	}
-	run.SetRule("direct: every subset E of a 4(5)-cursor universe in seeded order × after,before ∈ {absent} ∪ every integer position (members and gaps) × first,last ∈ {absent,0..|E|+1}; served (four APIs built in one process — plain connections built before, next to, after customised ones — the API seeded per case): every subset of a 4(5)-cursor universe × {all,window}×{sync,promise} × (first|last ∈ 0..|E|+1) × after,before ∈ {absent} ∪ cursors(E) ∪ 3 foreign emitted cursors, getter policy / selection / argument spelling seeded, all four selections on the zero-edge path; count-error combinations; forward-only, backward-only and customised (default first/last, required extra argument) connections × counts × cursors on every API; edges selected with four edge fields (node, label, weight, even); arbitrary cursor strings; forward and backward walks for every page size 1..|E|+1; random larger sets; codec round trips. distinct = distinct canonical case; non-trivial = the selected page is a non-empty proper sub-list of E (direct/served), an arbitrary cursor string is involved, or the walk needs more than one page")
+	run.SetRule("direct: every subset E of a 4(5)-cursor universe in seeded order × after,before ∈ {absent} ∪ every integer position (members and gaps) × first,last ∈ {absent,0..|E|+1}; served (four APIs built in one process — plain connections built before, next to, after customised ones — the API seeded per case): every subset of a 4(5)-cursor universe × {all,window}×{sync,promise} × (first|last ∈ 0..|E|+1) × after,before ∈ {absent} ∪ cursors(E) ∪ 3 foreign emitted cursors, getter policy / selection / argument spelling seeded, all four selections on the zero-edge path; count-error combinations; a connection with a non-hashable cursor type, forward-only, backward-only and customised (default first/last, required extra argument) connections × counts × cursors on every API; edges selected with four edge fields (node, label, weight, even); arbitrary cursor strings; forward and backward walks for every page size 1..|E|+1; random larger sets; codec round trips. distinct = distinct canonical case; non-trivial = the selected page is a non-empty proper sub-list of E (direct/served), an arbitrary cursor string is involved, or the walk needs more than one page")
 
 	if run.Replay != "" {
 		var c Case
@@ -180,7 +180,7 @@ func main() {
 		var curs []*CurArg
 		curs = append(curs, nil)
 		for _, c := range append(append([]int{}, set...), foreign...) {
-			curs = append(curs, &CurArg{Kind: "emitted", C: c, S: emit(c)})
+			curs = append(curs, &CurArg{Kind: "emitted", C: c, S: emitFor("", c)})
 		}
 		for _, m := range modes {
 			for n := 0; n <= len(E)+1; n++ {
@@ -226,7 +226,7 @@ func main() {
 		var curs []*CurArg
 		curs = append(curs, nil)
 		for _, c := range append(append([]int{}, set...), foreign[1]) {
-			curs = append(curs, &CurArg{Kind: "emitted", C: c, S: emit(c)})
+			curs = append(curs, &CurArg{Kind: "emitted", C: c, S: emitFor("", c)})
 		}
 		for world := 0; world < numWorlds; world++ {
 			fields := []string{"fwdOnly", "bwdOnly"}
@@ -256,6 +256,27 @@ func main() {
 						h.check(Case{Kind: "served", E: E, Req: &r})
 					}
 				}
+			}
+			// a connection whose cursor type is not hashable (a struct holding a slice)
+			for n := 0; n <= len(E)+1; n++ {
+				for _, fwd := range []bool{true, false} {
+					for _, c := range append(append([]int{-1}, set...), foreign[1]) {
+						var cur *CurArg
+						if c >= 0 {
+							cur = &CurArg{Kind: "emitted", C: c, S: emitFor("tagCursor", c)}
+						}
+						r := Req{Mode: "all", Field: "tagCursor", World: world, SelPI: R.Chance(3, 4), SelTC: R.Bool(), NilEmpty: R.Bool()}
+						if fwd {
+							r.First, r.After = ip(n), cur
+						} else {
+							r.Last, r.Before = ip(n), cur
+						}
+						h.check(Case{Kind: "served", E: E, Req: &r})
+					}
+				}
+			}
+			for n := 1; n <= len(E)+1; n++ {
+				h.check(Case{Kind: "walk", E: E, Walk: &Walk{Mode: "all", Forward: n%2 == 1, N: n, World: world, Field: "tagCursor"}})
 			}
 			// walks over the direction-only connections
 			for n := 1; n <= len(E)+1; n++ {
@@ -322,13 +343,13 @@ func main() {
 				return nil
 			case 1:
 				c := r.Range(-50, 450)
-				return &CurArg{Kind: "emitted", C: c, S: emit(c)}
+				return &CurArg{Kind: "emitted", C: c, S: emitFor("", c)}
 			default:
 				if len(E) == 0 {
 					return nil
 				}
 				c := hx.Pick(r, E)
-				return &CurArg{Kind: "emitted", C: c, S: emit(c)}
+				return &CurArg{Kind: "emitted", C: c, S: emitFor("", c)}
 			}
 		}
 		rq := Req{Mode: m.mode, Promise: m.promise, After: pickCur(), Before: pickCur(), SelPI: r.Chance(3, 4), SelTC: r.Bool(), Vars: r.Bool(), NullAbsent: r.Chance(1, 4), NilEmpty: r.Bool(), World: r.Intn(numWorlds), NodeOnly: r.Chance(1, 8)}
